@@ -409,6 +409,32 @@ def run_js_bytes(res, tier, sample_idx, rng):
                 if key(o) != whole:
                     res.violation('js-chunk-dependence-lagging-consumer', '[js stream] %d records in chunks of %d bytes delivered asynchronously, consumer pausing every %d records -> %d records (error %r, stuck %r) ; in one read -> %d records' % (
                         nrec, rq['chunks'][0], rq['consumer_pause_every'], len(o['records']), o['error'], o.get('stuck'), len(outs[0]['records'])), {'mode': 'js-lagging', 'records': nrec, 'chunk': rq['chunks'][0], 'pause_every': rq['consumer_pause_every']})
+        # a file of more than two mebibytes with a multi-byte character lying across the offsets 2**20 and 2**21 (and across a 64 KiB multiple): the bulk reader,
+        # the stream reader in one read and in 64 KiB / 1 MiB chunks all return the same records
+        if sample_idx == 5:
+            def pad_to(buf, target, ch):
+                # ASCII lines of 100 bytes, then a last line that ends so that `ch` starts one byte before `target`
+                while len(buf) + 100 < target - 200:
+                    buf += b'x' * 99 + b'\n'
+                buf += b'y' * (target - 1 - len(buf) - 1) + b',' + ch.encode('utf-8') + b',z\n'
+                return buf
+            big = pad_to(bytearray(), 65536 * 3, '\u00e9')
+            big = pad_to(big, 2 ** 20, '\u20ac')
+            big = pad_to(big, 2 ** 21, '\U0001f600')
+            big += b'last,line'
+            n = len(big)
+            base = {'bytes_hex': bytes(big).hex(), 'encoding': 'utf-8', 'delim': ',', 'policy': 'quoted', 'has_header': False, 'comment_prefix': None}
+            reqs = [dict(base, chunks=None), dict(base, chunks=[n]), dict(base, chunks=[65536] * (n // 65536) + [n % 65536]), dict(base, chunks=[2 ** 20, 2 ** 20, n - 2 ** 21]), dict(base, chunks=[2 ** 20 + 1, n - 2 ** 20 - 1])]
+            outs = [node.call({'op': 'read_batch', 'cases': [r]})['results'][0] for r in reqs]
+            exp_n = bytes(big).count(b'\n') + 1
+            for rq, o in zip(reqs, outs):
+                res.evaluations += 1
+                res.count('js_big_file_reads')
+                if key(o) != key(outs[1]) or o['error'] is not None or len(o['records']) != exp_n:
+                    first = next((i for i, (x, y) in enumerate(zip(o['records'], outs[1]['records'])) if x != y), None)
+                    res.violation('js-big-file-read-differs', '[js] a %d-byte file with multi-byte characters across the offsets 196608, 2**20 and 2**21 read %s -> %d records (error %r), first difference at record %r: %r ; in one stream read -> %d records' % (
+                        n, 'by the bulk reader' if rq['chunks'] is None else 'in %d chunks' % len(rq['chunks']), len(o['records']), o['error'], first, None if first is None else o['records'][first][-2:], len(outs[1]['records'])),
+                        {'mode': 'js-big-file', 'chunks': None if rq['chunks'] is None else len(rq['chunks'])})
     finally:
         node.close()
 
@@ -472,7 +498,7 @@ def summarize(tier, seed, m):
     return {
         'rule': 'every text of length <= %d over {a, quote, comma, LF, CR, #, space} x all 2^(n-1) partitions into successive reads (chunk_size n+1) x policies {simple, quoted, quoted_rfc} x comment prefix {none, #} x header {off, on}; length %d with header off (quick tier: 4 of the 6 policy x comment configurations at that length); for each text also chunk_size 1..n on the undivided text; every byte partition of %d multi-byte UTF-8 / latin-1 / BOM samples through a RawIOBase; the same samples (+ three with 4-byte characters at every position) through the JS stream reader, every partition (short) or every one- and two-cut, byte-by-byte and random partition (long) against the whole content in one read; 120-1500 short records in chunks of 37-4000 bytes delivered on separate event-loop turns to a consumer that yields every 0 / 1 / 2 / 7 records; random longer texts with random partitions and chunk sizes (text and byte level); lines and quoted_rfc records of 1100-6000 characters delivered one, two or 1-3 characters per read (thousands of reads per line) at chunk sizes 7 / 512 / 1024 / 4096; the same exhaustive differential up to 5 / 6 characters for 7 further dialects (semicolon, space + whitespace policy, space + quoted, monocolumn, multi-character delimiter with quoted_rfc and simple, tab) with single- and multi-character comment prefixes. Each whole read is also compared with the reference reader. distinct_nontrivial = (text, configuration) pairs whose text contains a line break or a quote.' % (FULL_LEN[tier], EXTRA_LEN[tier], len(byte_samples())),
         'exhaustive': True,
-        'required': ['partition_runs', 'js_byte_partition_runs', 'js_bulk_vs_one_read_comparisons', 'js_lagging_consumer_runs', 'byte_partition_runs', 'byte_partition_runs_buffered_reader', 'reference_comparisons', 'chunk_size_runs', 'dialect_partition_runs', 'dialect_reference_comparisons', 'very_long_line_runs'],
+        'required': ['partition_runs', 'js_byte_partition_runs', 'js_big_file_reads', 'js_bulk_vs_one_read_comparisons', 'js_lagging_consumer_runs', 'byte_partition_runs', 'byte_partition_runs_buffered_reader', 'reference_comparisons', 'chunk_size_runs', 'dialect_partition_runs', 'dialect_reference_comparisons', 'very_long_line_runs'],
         'assumptions': ['all delivery sequences a stream can produce are covered by enumerating partitions under a large chunk_size (a read(k) request returns min(piece, k)) plus the chunk-size sweep',
                         'rv.model.refcsv.read_text states the line-ending / comment / multi-line / BOM rules'],
     }
